@@ -948,7 +948,8 @@ SPECS["C18"] = CheckSpec(
          "synchronisation) from two seeds: after freeing the tables no block is outstanding, no block was released "
          "through another allocator (ASan reports a libc free of a tagged block, the allocator a foreign block); "
          "(stop) explicit-state BFS over conversations of the real socket thread (answers {ok, new data, Cache Reset, "
-         "response cut after its first payload PDU, duplicate announcement, timeout}, open {ok, fails}) with a stop "
+         "response cut after its first payload PDU, response complete but for its End of Data, duplicate announcement, "
+         "timeout}, open {ok, fails}; the live blocks of the configured allocator are part of the state key) with a stop "
          "request offered at EVERY point where the thread can be cancelled (waiting in ESTABLISHED, retry sleeps, "
          "blocked in a receive call of a synchronisation before and inside the payload); the real rtr_stop cancels and "
          "joins the thread, the tables are freed, and no block of the configured allocator may be outstanding",
